@@ -149,3 +149,441 @@ Lemma fold_left_flat_map {A B S} (h : S -> B -> S) (f : A -> list B) l : forall 
 Proof.
   induction l as [|x l IH]; intros s; simpl; [reflexivity|]. rewrite fold_left_app. apply IH.
 Qed.
+
+(* ================================================================================================ *)
+(* 1. the accumulator: add_at                                                                        *)
+(* ================================================================================================ *)
+Section AddAt.
+Context {L : Type}.
+Variable O : LenOps L.
+
+Lemma add_at_length (l : list L) k v : length (add_at O l k v) = length l.
+Proof. revert k. induction l as [|h l IH]; intros [|k]; simpl; auto. Qed.
+
+Lemma add_at_same (l : list L) k v h :
+  nth_error l k = Some h -> nth_error (add_at O l k v) k = Some (ladd O h v).
+Proof.
+  revert k. induction l as [|x l IH]; intros [|k] H; simpl in *; try discriminate; auto. congruence.
+Qed.
+
+Lemma add_at_other (l : list L) k k' v : k <> k' -> nth_error (add_at O l k v) k' = nth_error l k'.
+Proof.
+  revert k k'. induction l as [|x l IH]; intros [|k] [|k'] H; simpl; auto; try congruence.
+Qed.
+
+Definition apply_ups (ups : list (nat * L)) (vec : list L) : list L :=
+  fold_left (fun vec u => add_at O vec (fst u) (snd u)) ups vec.
+
+Lemma apply_ups_length ups : forall vec, length (apply_ups ups vec) = length vec.
+Proof.
+  induction ups as [|u ups IH]; intros vec; simpl; auto.
+  unfold apply_ups in *. simpl. rewrite IH. apply add_at_length.
+Qed.
+
+Lemma apply_ups_other ups k : forall vec,
+  ~ In k (map fst ups) -> nth_error (apply_ups ups vec) k = nth_error vec k.
+Proof.
+  induction ups as [|u ups IH]; intros vec Hk; simpl in *; auto.
+  unfold apply_ups in *. simpl. rewrite IH by tauto. apply add_at_other. tauto.
+Qed.
+
+Lemma apply_ups_hit ups k v : forall vec h,
+  NoDup (map fst ups) -> In (k, v) ups -> nth_error vec k = Some h ->
+  nth_error (apply_ups ups vec) k = Some (ladd O h v).
+Proof.
+  induction ups as [|u ups IH]; intros vec h Hnd Hin Hh; simpl in *; [tauto|].
+  apply NoDup_cons_iff in Hnd as [Hu Hnd]. unfold apply_ups in *. simpl.
+  destruct Hin as [->|Hin].
+  - simpl in *. fold (apply_ups ups (add_at O vec k v)). rewrite apply_ups_other by auto.
+    apply add_at_same; auto.
+  - eapply IH; eauto. rewrite add_at_other; auto. intros E. apply Hu. rewrite E.
+    change k with (fst (k, v)). apply in_map; auto.
+Qed.
+
+End AddAt.
+
+(* ================================================================================================ *)
+(* 2. rose-tree combinatorics: branching nodes, processing order                                     *)
+(* ================================================================================================ *)
+Lemma NoDup_forest_children cs : NoDup (flat_map ids cs) -> NoDup cs.
+Proof. intros H. apply NoDup_map_rid in H. eapply NoDup_map_inv; eauto. Qed.
+
+Lemma NoDup_forest_leaves cs : NoDup (flat_map ids cs) -> NoDup (flat_map rleaves cs).
+Proof.
+  intros H. eapply NoDup_flat_map_sub; [exact H|]. intros c Hc. split; [apply rleaves_incl_ids|].
+  apply rleaves_NoDup. eapply NoDup_flat_map_in; eauto.
+Qed.
+
+Lemma NoDup_ids_children i cs : NoDup (ids (RT i cs)) -> NoDup (flat_map ids cs) /\ ~ In i (flat_map ids cs).
+Proof. rewrite ids_RT. intros H. apply NoDup_cons_iff in H. tauto. Qed.
+
+Lemma rch_ids_incl s c : In c (rch s) -> incl (ids c) (ids s).
+Proof.
+  destruct s as [i cs]. cbn [rch]. intros Hc x Hx. rewrite ids_RT. right. apply in_flat_map. eauto.
+Qed.
+
+Lemma rch_subtrees s c : In c (rch s) -> In c (subtrees s).
+Proof.
+  destruct s as [i cs]. cbn [rch]. intros Hc. rewrite subtrees_RT. right. apply in_flat_map.
+  exists c. split; auto. apply subtrees_self.
+Qed.
+
+Lemma rch_NoDup s : NoDup (ids s) -> NoDup (flat_map ids (rch s)).
+Proof. destruct s as [i cs]. intros H. apply NoDup_ids_children in H. tauto. Qed.
+
+Lemma child_rid_neq s c : NoDup (ids s) -> In c (rch s) -> rid c <> rid s.
+Proof.
+  destruct s as [i cs]. cbn [rch rid]. intros H Hc E. apply NoDup_ids_children in H as [_ H]. apply H.
+  apply in_flat_map. exists c. split; auto. rewrite <- E. apply In_rid_ids.
+Qed.
+
+(* two subtrees sharing a node are nested *)
+Lemma subtrees_nested : forall r s s' a, NoDup (ids r) ->
+  In s (subtrees r) -> In s' (subtrees r) -> In a (ids s) -> In a (ids s') ->
+  In s (subtrees s') \/ In s' (subtrees s).
+Proof.
+  induction r as [i cs IH] using RepLib.rtree_ind'. intros s s' a Hnd Hs Hs' Ha Ha'.
+  rewrite subtrees_RT in Hs, Hs'. destruct Hs as [<-|Hs]; [right; rewrite subtrees_RT; auto|].
+  destruct Hs' as [<-|Hs']; [left; rewrite subtrees_RT; right; auto|].
+  apply in_flat_map in Hs as (c & Hc & Hs). apply in_flat_map in Hs' as (c' & Hc' & Hs').
+  apply NoDup_ids_children in Hnd as [Hnd _].
+  assert (c = c').
+  { eapply (flat_map_NoDup_inj ids cs c c' a); eauto.
+    - eapply subtrees_ids_incl; eauto.
+    - eapply subtrees_ids_incl; eauto. }
+  subst c'. rewrite Forall_forall in IH. eapply IH; eauto. eapply NoDup_flat_map_in; eauto.
+Qed.
+
+(* node s separates a and b: they lie below two different children, in child order *)
+Definition branch (s c1 c2 : rtree) (a b : nat) : Prop :=
+  In (c1, c2) (pairs (rch s)) /\ In a (rleaves c1) /\ In b (rleaves c2).
+
+Lemma branch_facts s c1 c2 a b : NoDup (ids s) -> branch s c1 c2 a b ->
+  In c1 (rch s) /\ In c2 (rch s) /\ c1 <> c2 /\ a <> b /\ In a (ids s) /\ In b (ids s) /\
+  In a (rleaves s) /\ In b (rleaves s).
+Proof.
+  intros Hnd (Hp & Ha & Hb). pose proof (in_pairs _ _ _ Hp) as [H1 H2].
+  pose proof (rch_NoDup _ Hnd) as Hcs.
+  assert (Hne : c1 <> c2) by (eapply pairs_neq; eauto; apply NoDup_forest_children; auto).
+  repeat split; auto.
+  - intros E. subst b. apply Hne.
+    apply (flat_map_NoDup_inj ids (rch s) c1 c2 a); auto; apply rleaves_incl_ids; auto.
+  - apply (rch_ids_incl s c1); auto. apply rleaves_incl_ids; auto.
+  - apply (rch_ids_incl s c2); auto. apply rleaves_incl_ids; auto.
+  - eapply subtrees_leaves_incl; [apply rch_subtrees; exact H1|auto].
+  - eapply subtrees_leaves_incl; [apply rch_subtrees; exact H2|auto].
+Qed.
+
+Lemma branch_below s s' c1 c2 c1' c2' a b :
+  NoDup (ids s) -> In s' (subtrees s) ->
+  branch s c1 c2 a b -> (branch s' c1' c2' a b \/ branch s' c1' c2' b a) -> s' = s.
+Proof.
+  intros Hnd Hs' Hb Hb'. destruct s as [i cs]. rewrite subtrees_RT in Hs'. destruct Hs' as [<-|Hs']; auto.
+  exfalso. apply in_flat_map in Hs' as (c & Hc & Hs').
+  destruct (branch_facts _ _ _ _ _ Hnd Hb) as (H1 & H2 & Hne & _ & _). simpl in H1, H2.
+  destruct Hb as (_ & Ha & Hb).
+  assert (Hnd' : NoDup (ids s')).
+  { eapply subtrees_NoDup; [|exact Hnd]. rewrite subtrees_RT. right. apply in_flat_map. eauto. }
+  assert (In a (ids c) /\ In b (ids c)) as [Hac Hbc].
+  { destruct Hb' as [Hb'|Hb']; destruct (branch_facts _ _ _ _ _ Hnd' Hb') as (_ & _ & _ & _ & X & Y & _);
+      split; eapply subtrees_ids_incl; eauto. }
+  apply NoDup_ids_children in Hnd as [Hnd _]. apply Hne.
+  transitivity c.
+  - eapply (flat_map_NoDup_inj ids cs c1 c a); eauto. apply rleaves_incl_ids; auto.
+  - eapply (flat_map_NoDup_inj ids cs c c2 b); eauto. apply rleaves_incl_ids; auto.
+Qed.
+
+(* the separating node of a pair of leaves is unique *)
+Lemma branch_unique r s s' c1 c2 c1' c2' a b :
+  NoDup (ids r) -> In s (subtrees r) -> In s' (subtrees r) ->
+  branch s c1 c2 a b -> (branch s' c1' c2' a b \/ branch s' c1' c2' b a) -> s' = s.
+Proof.
+  intros Hnd Hs Hs' Hb Hb'.
+  pose proof (subtrees_NoDup _ _ Hs Hnd) as Hn. pose proof (subtrees_NoDup _ _ Hs' Hnd) as Hn'.
+  destruct (branch_facts _ _ _ _ _ Hn Hb) as (_ & _ & _ & _ & Ha & _).
+  assert (Ha' : In a (ids s')).
+  { destruct Hb' as [Hb'|Hb']; destruct (branch_facts _ _ _ _ _ Hn' Hb') as (_ & _ & _ & _ & X & Y & _); auto. }
+  destruct (subtrees_nested r s s' a Hnd Hs Hs' Ha Ha') as [H|H].
+  - symmetry. destruct Hb' as [Hb'|Hb'].
+    + eapply (branch_below s' s); eauto.
+    + apply (branch_below s' s c1' c2' c1 c2 b a); auto.
+  - eapply branch_below; eauto.
+Qed.
+
+Lemma branch_exists : forall r a b, In a (rleaves r) -> In b (rleaves r) -> a <> b ->
+  exists s c1 c2, In s (subtrees r) /\ (branch s c1 c2 a b \/ branch s c1 c2 b a).
+Proof.
+  induction r as [i cs IH] using RepLib.rtree_ind'. intros a b Ha Hb Hne.
+  destruct cs as [|c0 cs0]; [simpl in *; intuition congruence|].
+  rewrite rleaves_cons in Ha, Hb. remember (c0 :: cs0) as cs.
+  apply in_flat_map in Ha as (ca & Hca & Ha). apply in_flat_map in Hb as (cb & Hcb & Hb).
+  destruct (in_dec Nat.eq_dec b (rleaves ca)) as [Hb'|Hb'].
+  - rewrite Forall_forall in IH. destruct (IH ca Hca a b Ha Hb' Hne) as (s & c1 & c2 & Hs & Hbr).
+    exists s, c1, c2. split; auto. rewrite subtrees_RT. right. apply in_flat_map. eauto.
+  - assert (Hcc : ca <> cb) by (intros ->; auto).
+    destruct (pairs_total cs ca cb Hca Hcb Hcc) as [Hp|Hp].
+    + exists (RT i cs), ca, cb. split; [apply subtrees_self|]. left. split; auto.
+    + exists (RT i cs), cb, ca. split; [apply subtrees_self|]. right. split; auto.
+Qed.
+
+(* ---- reverse level order visits children first --------------------------------------------------- *)
+Lemma subtree_levels : forall r s, In s (subtrees r) ->
+  exists k, In (rid s) (nodes_at k r) /\ forall c, In c (rch s) -> In (rid c) (nodes_at (S k) r).
+Proof.
+  induction r as [i cs IH] using RepLib.rtree_ind'. intros s Hs. rewrite subtrees_RT in Hs.
+  destruct Hs as [<-|Hs].
+  - exists 0. split; [simpl; auto|]. intros c Hc. cbn [nodes_at rch] in *.
+    apply in_flat_map. exists c. split; auto. simpl. auto.
+  - apply in_flat_map in Hs as (c0 & Hc0 & Hs). rewrite Forall_forall in IH.
+    destruct (IH c0 Hc0 s Hs) as (k & Hk & Hch). exists (S k). split.
+    + cbn [nodes_at rch]. apply in_flat_map. eauto.
+    + intros c Hc. change (nodes_at (S (S k)) (RT i cs)) with (flat_map (nodes_at (S k)) cs).
+      apply in_flat_map. eauto.
+Qed.
+
+Definition child_first (r : rtree) (l : list nat) : Prop :=
+  forall l1 v l2, l = l1 ++ v :: l2 ->
+    ~ In v l1 /\ exists s, In s (subtrees r) /\ rid s = v /\ forall c, In c (rch s) -> In (rid c) l1.
+
+Lemma child_first_prefix r l1 l2 : child_first r (l1 ++ l2) -> child_first r l1.
+Proof. intros H m1 v m2 E. apply (H m1 v (m2 ++ l2)). rewrite E, <- app_assoc. reflexivity. Qed.
+
+Lemma level_NoDup r : NoDup (ids r) -> NoDup (level r).
+Proof. intros H. eapply Permutation_NoDup; [apply pre_level_perm|exact H]. Qed.
+
+Theorem rev_level_child_first r : NoDup (ids r) -> child_first r (rev (level r)).
+Proof.
+  intros Hnd l1 v l2 E.
+  assert (El : level r = rev l2 ++ v :: rev l1).
+  { rewrite <- (rev_involutive (level r)), E, rev_app_distr. simpl. rewrite <- app_assoc. reflexivity. }
+  pose proof (level_NoDup r Hnd) as HndL. rewrite El in HndL.
+  apply NoDup_app_iff in HndL as (_ & HndL & Hdis). apply NoDup_cons_iff in HndL as [Hv1 _].
+  split; [rewrite in_rev; exact Hv1|].
+  assert (Hv : In v (pre r)).
+  { eapply Permutation_in; [apply Permutation_sym, pre_level_perm|]. rewrite El. apply in_or_app. right. left. auto. }
+  rewrite <- map_rid_subtrees in Hv. apply in_map_iff in Hv as (s & Hsv & Hs).
+  exists s. repeat split; auto. intros c Hc.
+  destruct (subtree_levels r s Hs) as (k & Hk & Hch). specialize (Hch c Hc).
+  pose proof (nodes_at_depth _ _ _ Hnd Hk) as Dv. pose proof (nodes_at_depth _ _ _ Hnd Hch) as Dc.
+  assert (Hcl : In (rid c) (level r)).
+  { eapply Permutation_in; [apply pre_level_perm|]. eapply nodes_at_in_pre; eauto. }
+  rewrite El in Hcl. apply in_app_or in Hcl as [Hcl|[Hcl|Hcl]].
+  - exfalso. apply in_split in Hcl as (A & B & EA). rewrite EA, <- app_assoc in El. simpl in El.
+    destruct (level_depth_monotone r _ _ _ _ _ Hnd El) as (dx & dy & Hx & Hy & Hle).
+    rewrite Hsv in Dv. rewrite Dc in Hx. rewrite Dv in Hy. injection Hx as <-. injection Hy as <-. lia.
+  - exfalso. rewrite <- Hsv in Hcl. symmetry in Hcl. revert Hcl. apply child_rid_neq; auto.
+    eapply subtrees_NoDup; eauto.
+  - apply in_rev; auto.
+Qed.
+
+(* ================================================================================================ *)
+(* 3. the fast algorithm: definitions and specification functions                                   *)
+(* ================================================================================================ *)
+Section DM.
+Context {L : Type}.
+Variable O : LenOps L.
+Notation arena := (@arena L).
+Notation node := (@node L).
+Notation cache := (@cache L).
+
+(* ---- the loop body of distance_matrix, piece by piece ---------------------------------------------- *)
+Section Body.
+Variable t : arena.
+
+Definition name_leb (a b : nat) : bool :=
+  match get t a, get t b with
+  | Ok na, Ok nb => ostr_leb (nname na) (nname nb)
+  | _, _ => true
+  end.
+Definition leaf_order : list nat := stable_sort name_leb (get_leaves t).
+Definition rk (a : nat) : nat := match index_of a leaf_order with Some k => k | None => 0 end.
+Definition ncells : nat := n_leaves t * (n_leaves t - 1) / 2.
+Definition cell (a b : nat) : nat := tril_idx (rk a) (rk b).
+
+Definition nc_step (caches : list (nat * cache)) (nc : cache) (ch : nat) : outcome cache :=
+  c <- get t ch ;;
+  let clen := match npedge c with Some e => e | None => l1 O end in
+  match caches_get caches ch with
+  | None => Err MissingBranchLengths
+  | Some cc => Ok (fold_left (fun acc (kv : nat * L) => edge_insert acc (fst kv) (ladd O clen (snd kv))) cc nc)
+  end.
+
+Definition leaf_step (nc : cache) (vec : list L) (lf : nat * nat) : outcome (list L) :=
+  match edge_get nc (fst lf), edge_get nc (snd lf) with
+  | Some d1, Some d2 =>
+      match index_of (fst lf) leaf_order, index_of (snd lf) leaf_order with
+      | Some i, Some j => Ok (add_at O vec (tril_idx i j) (ladd O d1 d2))
+      | _, _ => Err NodeNotFound
+      end
+  | _, _ => Panic 16
+  end.
+
+Definition pair_step (caches : list (nat * cache)) (nc : cache) (vec : list L) (pr : nat * nat)
+  : outcome (list L) :=
+  _ <- get t (fst pr) ;;
+  _ <- get t (snd pr) ;;
+  match caches_get caches (fst pr), caches_get caches (snd pr) with
+  | Some c1, Some c2 => foldM (leaf_step nc) (list_prod (map fst c1) (map fst c2)) vec
+  | _, _ => Err MissingBranchLengths
+  end.
+
+Definition dm_step (st : list L * list (nat * cache)) (cur : nat) : outcome (list L * list (nat * cache)) :=
+  let '(vec, caches) := st in
+  p <- get t cur ;;
+  let nc0 : cache := if is_tip p then [(cur, l0 O)] else [] in
+  nc <- foldM (nc_step caches) (nchildren p) nc0 ;;
+  vec' <- foldM (pair_step caches nc) (pairs (nchildren p)) vec ;;
+  Ok (vec', (cur, nc) :: caches).
+
+Definition leaf_name (i : nat) : outcome str :=
+  match get t i with
+  | Ok nd => match nname nd with Some x => Ok x | None => Err UnnamedLeaves end
+  | _ => Panic 15
+  end.
+
+Lemma dm_unfold :
+  distance_matrix O t =
+  if Nat.eqb (n_leaves t) 0 then Err IsEmpty else
+  names <- mapM leaf_name leaf_order ;;
+  root <- get_root t ;;
+  lo <- levelorder t root ;;
+  '(vec, _) <- foldM dm_step (rev lo) (repeat (l0 O) ncells, []) ;;
+  Ok (mkDmat (length names) names vec).
+Proof. reflexivity. Qed.
+
+Theorem dm_empty : n_leaves t = 0 -> distance_matrix O t = Err IsEmpty.
+Proof. intros H. rewrite dm_unfold, H. reflexivity. Qed.
+
+End Body.
+
+(* ---- the setting: the live slots of t form the tree r ----------------------------------------------- *)
+Section Core.
+Variables (t : arena) (root : nat) (r : rtree).
+Hypothesis HR : Rep t None 0 root r.
+Hypothesis HN : NoDup (ids r).
+Hypothesis HL : forall i, live t i -> In i (ids r).
+
+(* length used for the branch above node c: its own length, or 1.0 when absent *)
+Definition elen (c : nat) : L := match edge_of t c with Some e => e | None => l1 O end.
+
+(* D s x : sum of the branch lengths along the downward path from the root of s to x *)
+Fixpoint Dfirst (D : rtree -> nat -> L) (x : nat) (cs : list rtree) : L :=
+  match cs with
+  | [] => l0 O
+  | c :: rest => if mem_nat x (ids c) then ladd O (elen (rid c)) (D c x) else Dfirst D x rest
+  end.
+Fixpoint D (s : rtree) (x : nat) : L :=
+  match s with
+  | RT _ cs =>
+      (fix first (cs : list rtree) : L :=
+         match cs with
+         | [] => l0 O
+         | c :: rest => if mem_nat x (ids c) then ladd O (elen (rid c)) (D c x) else first rest
+         end) cs
+  end.
+
+Lemma D_RT i cs x : D (RT i cs) x = Dfirst D x cs.
+Proof. cbn [D]. induction cs as [|c cs IH]; cbn [Dfirst]; [reflexivity|]. rewrite <- IH. reflexivity. Qed.
+
+Lemma D_tip i x : D (RT i []) x = l0 O.
+Proof. reflexivity. Qed.
+
+Lemma Dfirst_child x cs c :
+  NoDup (flat_map ids cs) -> In c cs -> In x (ids c) -> Dfirst D x cs = ladd O (elen (rid c)) (D c x).
+Proof.
+  induction cs as [|c0 cs IH]; intros Hnd Hc Hx; [destruct Hc|].
+  cbn [Dfirst]. destruct (mem_nat x (ids c0)) eqn:E.
+  - apply mem_nat_In in E. assert (c0 = c); [|subst; auto].
+    eapply (flat_map_NoDup_inj ids (c0 :: cs) c0 c x); simpl; auto.
+  - destruct Hc as [->|Hc].
+    + apply mem_nat_In in Hx. congruence.
+    + apply IH; auto. simpl in Hnd. apply NoDup_app_iff in Hnd. tauto.
+Qed.
+
+Lemma D_child s c x :
+  NoDup (ids s) -> In c (rch s) -> In x (ids c) -> D s x = ladd O (elen (rid c)) (D c x).
+Proof.
+  destruct s as [i cs]. cbn [rch]. intros Hnd Hc Hx. rewrite D_RT. apply Dfirst_child; auto.
+  apply NoDup_ids_children in Hnd. tauto.
+Qed.
+
+(* ---- nodes of the tree in the arena -------------------------------------------------------------------- *)
+Lemma sub_rep s : In s (subtrees r) -> exists p d, Rep t p d (rid s) s.
+Proof.
+  intros Hs. destruct (Rep_subtrees _ _ _ _ _ _ HR Hs) as [->|(_ & q & d' & H)]; eauto.
+  rewrite (Rep_rid _ _ _ _ _ HR). eauto.
+Qed.
+
+Lemma sub_node s : In s (subtrees r) ->
+  exists n, get t (rid s) = Ok n /\ nth_error t (rid s) = Some n /\ nchildren n = map rid (rch s).
+Proof.
+  intros Hs. destruct (sub_rep s Hs) as (p & d & H).
+  destruct (Rep_inv _ _ _ _ _ H) as (n & cs & Heq & Hn & Hdel & _ & _ & _ & HF & _).
+  exists n. split; [apply get_Ok; auto|]. split; auto. rewrite Heq. cbn [rch].
+  eapply Forall2_Rep_rid; eauto.
+Qed.
+
+Lemma sub_tip s n : In s (subtrees r) -> get t (rid s) = Ok n ->
+  is_tip n = match rch s with [] => true | _ => false end.
+Proof.
+  intros Hs Hg. destruct (sub_node s Hs) as (n' & Hg' & _ & Hc). rewrite Hg in Hg'. injection Hg' as <-.
+  unfold is_tip. rewrite Hc. destruct (rch s); reflexivity.
+Qed.
+
+Lemma sub_child s c : In s (subtrees r) -> In c (rch s) -> In c (subtrees r).
+Proof. intros Hs Hc. eapply subtrees_trans; eauto. apply rch_subtrees; auto. Qed.
+
+Lemma sub_elen s n : In s (subtrees r) -> get t (rid s) = Ok n ->
+  elen (rid s) = match npedge n with Some e => e | None => l1 O end.
+Proof.
+  intros Hs Hg. apply get_Ok in Hg as [Hn _]. unfold elen, edge_of. rewrite Hn. reflexivity.
+Qed.
+
+Lemma sub_nodup s : In s (subtrees r) -> NoDup (ids s).
+Proof. intros Hs. eapply subtrees_NoDup; eauto. Qed.
+
+(* ---- ranks ------------------------------------------------------------------------------------------------ *)
+Lemma leaf_order_perm : Permutation (leaf_order t) (rleaves r).
+Proof.
+  unfold leaf_order. eapply Permutation_trans; [apply stable_sort_perm|].
+  eapply rep_get_leaves_perm; eauto.
+Qed.
+
+Lemma leaf_order_length : length (leaf_order t) = n_leaves t.
+Proof.
+  rewrite (Permutation_length leaf_order_perm). symmetry. eapply rep_n_leaves_good; eauto.
+Qed.
+
+Lemma rk_spec a : In a (rleaves r) -> index_of a (leaf_order t) = Some (rk t a) /\ rk t a < n_leaves t.
+Proof.
+  intros Ha. assert (Hin : In a (leaf_order t)).
+  { eapply Permutation_in; [apply Permutation_sym, leaf_order_perm|auto]. }
+  apply index_of_In in Hin as (k & Hk). unfold rk. rewrite Hk. split; auto.
+  apply index_of_nth in Hk. apply nth_error_Some_lt in Hk. rewrite <- leaf_order_length. auto.
+Qed.
+
+Lemma rk_inj a b : In a (rleaves r) -> In b (rleaves r) -> rk t a = rk t b -> a = b.
+Proof.
+  intros Ha Hb E. destruct (rk_spec a Ha) as [Ia _]. destruct (rk_spec b Hb) as [Ib _].
+  rewrite E in Ia. eapply index_of_inj; eauto.
+Qed.
+
+Lemma cell_lt a b : In a (rleaves r) -> In b (rleaves r) -> a <> b -> cell t a b < ncells t.
+Proof.
+  intros Ha Hb Hne. unfold cell, ncells. apply tril_lt_any.
+  - intros E. apply Hne. apply rk_inj; auto.
+  - apply rk_spec; auto.
+  - apply rk_spec; auto.
+Qed.
+
+Lemma cell_inj a b a' b' :
+  In a (rleaves r) -> In b (rleaves r) -> In a' (rleaves r) -> In b' (rleaves r) ->
+  a <> b -> a' <> b' -> cell t a b = cell t a' b' -> (a = a' /\ b = b') \/ (a = b' /\ b = a').
+Proof.
+  intros Ha Hb Ha' Hb' Hne Hne' E. unfold cell in E.
+  apply tril_inj_any in E as [[E1 E2]|[E1 E2]].
+  - left. split; apply rk_inj; auto.
+  - right. split; apply rk_inj; auto.
+  - intros E'. apply Hne. apply rk_inj; auto.
+  - intros E'. apply Hne'. apply rk_inj; auto.
+Qed.
